@@ -10,7 +10,7 @@ S=${WPV_SCRATCH:-/root/scratch/seedrun.$$}
 mkdir -p "$S"; trap 'rm -rf "$S"' EXIT
 rsync -a --exclude .git --exclude replay --exclude __pycache__ "$HERE/" "$S/verif/"
 mkdir -p "$S/verif/replay"
-ids=("$@"); [ ${#ids[@]} -eq 0 ] && ids=($(ls "$HERE/seeded"))
+ids=("$@"); [ ${#ids[@]} -eq 0 ] && ids=($(cd "$HERE/seeded" && ls -d */ | tr -d /))
 rc=0
 for id in "${ids[@]}"; do
   prop=${id%%-*}
